@@ -149,7 +149,7 @@ func isEmptyTuple(t types.Type) bool {
 
 func (fr *Frame) nonNilPtrs(v *SVal) {
 	for _, l := range v.flat() {
-		if kindOf(l.T) == KPtr && l.Term != "" {
+		if k := kindOf(l.T); (k == KPtr || k == KIface) && l.Term != "" {
 			fr.x.em.Assert(sLt("0", l.Term))
 		}
 	}
@@ -493,6 +493,25 @@ func (fr *Frame) invoke(recv *SVal, cc *ssa.CallCommon, args []*SVal, rt types.T
 	x := fr.x
 	m := cc.Method
 	name := m.Name()
+	// logging interfaces (logrus.FieldLogger, ...): no effect on program state (A-LOG)
+	if n, ok := cc.Value.Type().(*types.Named); ok && n.Obj().Pkg() != nil {
+		pp := n.Obj().Pkg().Path()
+		if strings.Contains(pp, "sirupsen/logrus") || strings.HasSuffix(pp, "/util/logging") {
+			x.trust("A-LOG/A-SEQ: call skipped: " + n.Obj().Name() + "." + name)
+			if strings.HasPrefix(name, "Panic") || strings.HasPrefix(name, "Fatal") {
+				if x.topNoPanic() {
+					fr.oblige("nopanic", "call:"+name, "false", "")
+				}
+				fr.curReach = "false"
+			}
+			if rt != nil && !isEmptyTuple(rt) {
+				v := fr.freshVal("skip."+name, rt)
+				fr.nonNilPtrs(v)
+				fr.setResult(res, v)
+			}
+			return
+		}
+	}
 	fr.oblige("safe:nil", "invoke:"+name, sNot(sEq(recv.Term, "0")), "")
 	// interface contract
 	key := ""
